@@ -108,6 +108,8 @@ def run(name, tier="quick", props=None):
     rc, out = sh(["git", "-C", "/repo", "status", "--porcelain", "--untracked-files=no"])
     assert out.strip() == "", "/repo not clean:\n" + out
     res = {}
+    # evidence files describe the UNCHANGED tree: keep them as they are and put them back afterwards
+    saved = {p: open(os.path.join(V, "evidence", p + ".json")).read() for p in props if os.path.exists(os.path.join(V, "evidence", p + ".json"))}
     try:
         rc, out = sh(["git", "-C", "/repo", "apply", os.path.join(d, "patch.diff")])
         assert rc == 0, out
@@ -127,6 +129,8 @@ def run(name, tier="quick", props=None):
     finally:
         sh(["git", "-C", "/repo", "checkout", "--", "."])
         sh([sys.executable, os.path.join(V, "tools", "translate.py")], cwd=V)      # Generated/*.lean back to the unchanged source
+        for p, txt in saved.items():
+            open(os.path.join(V, "evidence", p + ".json"), "w").write(txt)
     meta.setdefault("checks", {}).update(res)
     json.dump(meta, open(os.path.join(d, "meta.json"), "w"), indent=1)
     for p, r in res.items():
